@@ -18,6 +18,9 @@ pub struct TraitFn {
     pub originally_async: bool,
     /// The default body of a method of an entraited trait
     pub default_body: Option<syn::Block>,
+    /// The generic arguments for calling the entraited function from its delegating method (`_` for the
+    /// dependency parameter), if it has type or const parameters of its own.
+    pub call_generics: Option<Vec<proc_macro2::TokenStream>>,
 }
 
 impl TraitFn {
@@ -57,12 +60,45 @@ impl TraitFnAnalyzer<'_> {
             impl_receiver_kind: self.impl_receiver_kind,
         }
         .convert_fn_to_trait_fn();
+        let deps_param = match &deps {
+            FnDeps::Generic {
+                generic_param: Some(ident),
+                ..
+            } => Some(ident),
+            _ => None,
+        };
+        let mut has_own_params = false;
+        let call_generics: Vec<_> = input_sig
+            .generics
+            .params
+            .iter()
+            .filter_map(|param| match param {
+                syn::GenericParam::Lifetime(_) => None,
+                syn::GenericParam::Type(type_param) if Some(&type_param.ident) == deps_param => {
+                    Some(quote::quote! { _ })
+                }
+                syn::GenericParam::Type(type_param) => {
+                    has_own_params = true;
+                    Some(type_param.ident.to_token_stream())
+                }
+                syn::GenericParam::Const(const_param) => {
+                    has_own_params = true;
+                    Some(const_param.ident.to_token_stream())
+                }
+            })
+            .collect();
+
         Ok(TraitFn {
             deps,
             attrs: vec![],
             entrait_sig,
             originally_async: input_sig.asyncness.is_some(),
             default_body: None,
+            call_generics: if has_own_params {
+                Some(call_generics)
+            } else {
+                None
+            },
         })
     }
 }
